@@ -576,9 +576,9 @@ RULE = ("grammar layer: HTTP/1.1 responses assembled from valid and defective st
 PROP = Prop(
     P, level="exploration", rule=RULE,
     layers=[
-        Layer("grammar", strategy=grammar_cases, execute=execute_grammar, budget={"quick": 6000, "thorough": 200000}),
-        Layer("mutation", strategy=mutation_cases, execute=execute_mutation, budget={"quick": 3000, "thorough": 120000}),
-        Layer("faults", cases=fault_cases, execute=execute_fault),
+        Layer("grammar", stall_is_violation=True, strategy=grammar_cases, execute=execute_grammar, budget={"quick": 6000, "thorough": 200000}),
+        Layer("mutation", stall_is_violation=True, strategy=mutation_cases, execute=execute_mutation, budget={"quick": 3000, "thorough": 120000}),
+        Layer("faults", stall_is_violation=True, cases=fault_cases, execute=execute_fault),
         Layer("invalid-requests", strategy=invalid_request_cases, execute=execute_invalid, budget={"quick": 300, "thorough": 3000}),
         Layer("atheris", cases=campaign_cases, execute=execute_campaign),
     ],
